@@ -420,25 +420,40 @@ var removeGate = syncutil.NewGate(20) // arbitrary
 
 // RemoveBlobs removes the blobs from index and pads data with zero bytes
 func (s *storage) RemoveBlobs(ctx context.Context, blobs []blob.Ref) error {
+	// Find the blobs first, then drop them from the index, and only then
+	// erase their data: if the index update fails nothing has been
+	// destroyed yet, and the index never points at zeroed data.
 	batch := s.index.BeginBatch()
-	var wg syncutil.Group
+	found := make([]blob.Ref, 0, len(blobs))
+	metas := make([]blobMeta, 0, len(blobs))
 	for _, br := range blobs {
-		removeGate.Start()
+		meta, err := s.meta(br)
+		if errors.Is(err, os.ErrNotExist) {
+			continue
+		}
+		if err != nil {
+			return err
+		}
 		batch.Delete(br.String())
+		found = append(found, br)
+		metas = append(metas, meta)
+	}
+	if err := s.index.CommitBatch(batch); err != nil {
+		return err
+	}
+	var wg syncutil.Group
+	for i, br := range found {
+		meta := metas[i]
+		removeGate.Start()
 		wg.Go(func() error {
 			defer removeGate.Done()
-			if err := s.delete(br); err != nil && !errors.Is(err, os.ErrNotExist) {
+			if err := s.delete(br, meta); err != nil && !errors.Is(err, os.ErrNotExist) {
 				return err
 			}
 			return nil
 		})
 	}
-	err1 := wg.Err()
-	err2 := s.index.CommitBatch(batch)
-	if err1 != nil {
-		return err1
-	}
-	return err2
+	return wg.Err()
 }
 
 var statGate = syncutil.NewGate(20) // arbitrary
